@@ -153,7 +153,7 @@ def run(ctx):
     return __doc__.split('\n\n', 1)[1]
 
 
-def check_partial(ctx, prog):
+def check_partial(ctx, prog, rule='C16.partial', files=True):
     """The blocking read/write loops of Socket_ complete partial transfers: every retry passes the not-yet-transferred
     remainder (buffer position and byte count both advanced by what the OS call returned)."""
     found = 0
@@ -172,7 +172,7 @@ def check_partial(ctx, prog):
                                 ios.append((lp, v, ini))
             role = f['n'] + f['sig'] + ':retry passes the remainder'
             if len(ios) != 1:
-                ctx.undecided('C16.partial', f['pq'], role, fwhere(f), 'no single OS transfer call inside a retry loop (found %d)' % len(ios))
+                ctx.undecided(rule, f['pq'], role, fwhere(f), 'no single OS transfer call inside a retry loop (found %d)' % len(ios))
                 continue
             lp, nv, call = ios[0]
             # variables advanced by the returned count inside the loop
@@ -188,12 +188,23 @@ def check_partial(ctx, prog):
                 return any(w.get('k') == 'var' and w.get('id') in adv for w in walk_expr(x))
             ctx.evaluations += 3
             okb, okl = uses_adv(buf), uses_adv(ln)
-            okc = lp.get('c') is not None and uses_adv(lp['c'])
-            ctx.check(okb and okl and okc, 'C16.partial', f['pq'], role, fwhere(f, call['l']),
+            # the loop continues while (accumulated < TOTAL) with TOTAL invariant in the loop, or while (remaining > 0)
+            okc = False
+            lc = strip(lp.get('c') or {})
+            if lc.get('k') == 'bin' and lc.get('op') in ('<', '>', '!=', '<=', '>='):
+                xs, ys = strip(lc['x']), strip(lc['y'])
+                xa = xs.get('k') == 'var' and xs.get('id') in adv
+                ya = ys.get('k') == 'var' and ys.get('id') in adv
+                if xa != ya:
+                    other = ys if xa else xs
+                    okc = (other.get('k') == 'var' and other.get('id') not in adv) or const_val(other) == 0
+            ctx.check(okb and okl and okc, rule, f['pq'], role, fwhere(f, call['l']),
                       'buffer position, byte count and loop condition all advance with the returned count',
-                      'after a short transfer the retry does not pass exactly the remainder: buffer argument advances=%s, length argument advances=%s, loop condition advances=%s '
-                      '(`%s`): following values are over-read/over-written or skipped' % (okb, okl, okc, pe(call)))
-    ctx.floor('C16.partial', found, 2)
+                      'after a short transfer the retry does not pass exactly the remainder / stop exactly at the total: buffer argument advances=%s, length argument advances=%s, '
+                      'loop condition compares the progress with a loop-invariant total (or the remainder with 0)=%s (`%s`, condition `%s`): following values are over-read/over-written, skipped, or the read returns early' % (okb, okl, okc, pe(call), pe(lp.get('c'))))
+    ctx.floor(rule, found, 2)
+    if not files:
+        return
     for q_, fn_, sig in (('asl::File::read', 'fread', '(void *,int)'), ('asl::File::write', 'fwrite', '(const void *,int)')):
         for f in prog.fn(q_, sig):
             ctx.analysed(f)
@@ -353,12 +364,23 @@ def check_reader(ctx, prog, other_val):
                 ctx.undecided('C16.reader', f['pq'], inst + ':shape', fwhere(f), 'no single byte-order conditional')
                 continue
             c = conds[0]
-            cc = strip(c['c'])
-            okc = cc.get('k') == 'bin' and cc['op'] == '==' and reads_endian_member(f, prog, cc['x'], 0) and const_val(cc['y']) == big
-            if not okc:
-                ctx.violation('C16.reader', f['pq'], inst + ':test', fwhere(f, c['l']), 'byte-order test `%s` is not (order member == ENDIAN_BIG)' % pe(c['c']))
+            # which arm does each byte order select?  (evaluated: BIG -> big-endian assembly; LITTLE and NATIVE - the build
+            # target is little-endian - -> little-endian assembly)
+            import bytesets
+            little, native = q.enum_value(prog, 'asl::Endian', 'ENDIAN_LITTLE'), q.enum_value(prog, 'asl::Endian', 'ENDIAN_NATIVE')
+            sel = {}
+            try:
+                for name, val in (('BIG', big), ('LITTLE', little), ('NATIVE', native)):
+                    sel[name] = bool(bytesets._Bound(prog, f, lambda e: e.get('k') == 'mem' and 'endian' in e.get('f', '').lower(), val).ev(c['c']))
+            except bytesets.Undecidable as ex:
+                ctx.undecided('C16.reader', f['pq'], inst + ':test', fwhere(f, c['l']), 'byte-order test not evaluable: %s' % ex)
                 continue
-            pb, pl = provenance(f, c['x'], '_ptr'), provenance(f, c['y'], '_ptr')
+            if sel['LITTLE'] != sel['NATIVE'] or sel['BIG'] == sel['LITTLE']:
+                ctx.violation('C16.reader', f['pq'], inst + ':test', fwhere(f, c['l']), 'byte-order test `%s` sends BIG->%s, LITTLE->%s, NATIVE->%s: NATIVE must be assembled like LITTLE (the host order) and BIG differently' % (
+                    pe(c['c']), 'first' if sel['BIG'] else 'second', 'first' if sel['LITTLE'] else 'second', 'first' if sel['NATIVE'] else 'second'))
+                continue
+            big_arm, little_arm = (c['x'], c['y']) if sel['BIG'] else (c['y'], c['x'])
+            pb, pl = provenance(f, big_arm, '_ptr'), provenance(f, little_arm, '_ptr')
             ctx.evaluations += 2 * k
             want_b = {i: 8 * (k - 1 - i) for i in range(k)}
             want_l = {i: 8 * i for i in range(k)}
